@@ -172,6 +172,12 @@ pub fn run_history(p: Prop, case: &HistCase, st: &mut Stats, known_open: &dyn Fn
         }
         st.class(&format!("op:{}:{}", op::NAMES[o.code as usize], if res.ok { "ok" } else { "err" }));
         w.rescan();
+        // --- open finding KF-C11-1: a load rejected in the merge phase leaves partial imports behind; for the
+        // other history properties the model is in an undefined state then: the history ends
+        if p != Prop::C11 && o.code == op::LOAD && res.err.as_deref() == Some("InvalidFileMerge") && known_open("failed-op-changed-state:load:InvalidFileMerge") {
+            st.class("ended:failed-merge(KF-C11-1)");
+            return Ok(());
+        }
         // --- non-triviality rules
         match p {
             Prop::C03 => {
